@@ -59,6 +59,17 @@ fn tag_of(code: u16) -> Result<String, String> {
     guarded(|| Language::from_code(code).tag().to_string()).map_err(|p| p.signature())
 }
 
+/// The tag of `code`, or a marker when `tag()` panics (build_image reports that panic as a violation;
+/// the later laws must not take the monitor down with it).
+fn tag_or(code: u16) -> String {
+    tag_of(code).unwrap_or_else(|_| "<tag() panicked>".to_string())
+}
+
+/// `from_tag(s).code()`, or None when it panics (reported by check_from_tag / the table-tag law).
+fn code_of_tag(s: &str) -> Option<u16> {
+    guarded(|| Language::from_tag(s).code()).ok()
+}
+
 fn build_image(rep: &mut Report) -> Image {
     let mut by_tag: BTreeMap<String, Vec<u16>> = BTreeMap::new();
     for c in 0..=u16::MAX {
@@ -191,12 +202,18 @@ pub fn run(ctx: &Ctx) -> Report {
             ),
         }
         // every table tag maps to its own code and back
-        let code = Language::from_tag(t).code();
+        let code = match code_of_tag(t) {
+            Some(c) => c,
+            None => {
+                rep.violation(format!("C17/from_tag-panic/{}", t), format!("from_tag({:?}) panicked", t), json!({"kind": "tag", "tag": t}));
+                continue;
+            }
+        };
         if t != "und" {
             if !codes.contains(&code) {
                 rep.violation(
                     format!("C17/own-code/{}", t),
-                    format!("from_tag({:?}).code() = {} whose tag is {:?}", t, code, Language::from_code(code).tag()),
+                    format!("from_tag({:?}).code() = {} whose tag is {:?}", t, code, tag_or(code)),
                     json!({"kind": "tag", "tag": t}),
                 );
             }
@@ -227,7 +244,7 @@ pub fn run(ctx: &Ctx) -> Report {
     // 'und' is for unknown LANGUAGES only: when some identifier of a primary language has a tag, every
     // identifier of that language has one (the bare language tag at least), and they all share the language part
     for primary in 0u16..1024 {
-        let tags: Vec<(u16, String)> = (0u16..64).map(|sub| primary | (sub << 10)).map(|c| (c, Language::from_code(c).tag().to_string())).collect();
+        let tags: Vec<(u16, String)> = (0u16..64).map(|sub| primary | (sub << 10)).map(|c| (c, tag_or(c))).collect();
         let known: Vec<&(u16, String)> = tags.iter().filter(|(_, t)| t != "und").collect();
         if known.is_empty() {
             continue;
@@ -254,8 +271,8 @@ pub fn run(ctx: &Ctx) -> Report {
         }
     }
     for &(code, tag) in PINNED.iter() {
-        let got = Language::from_code(code).tag().to_string();
-        let back = Language::from_tag(tag).code();
+        let got = tag_or(code);
+        let back = code_of_tag(tag).unwrap_or(u16::MAX);
         if got != tag || back != code {
             rep.violation(
                 format!("C17/pinned/{}", code),
@@ -361,9 +378,9 @@ pub fn run(ctx: &Ctx) -> Report {
     rep.merge(par);
     rep.exhaustive_parts.push("all 65,536 language identifiers (code preservation, tag(), tag round trip)".into());
     rep.exhaustive_parts.push("every tag in the image of tag()".into());
-    rep.sample(json!({"law": "pinned identifier", "code": 1033, "tag": Language::from_code(1033).tag()}));
-    rep.sample(json!({"law": "unknown region", "input": "en-ZZ", "code": Language::from_tag("en-ZZ").code(), "tag": Language::from_tag("en-ZZ").tag()}));
-    rep.sample(json!({"law": "unknown language", "input": "xx-YY", "code": Language::from_tag("xx-YY").code()}));
-    rep.sample(json!({"law": "tag round trip", "code": 3084, "tag": Language::from_code(3084).tag(), "back": Language::from_tag(Language::from_code(3084).tag()).code()}));
+    rep.sample(json!({"law": "pinned identifier", "code": 1033, "tag": tag_or(1033)}));
+    rep.sample(json!({"law": "unknown region", "input": "en-ZZ", "code": code_of_tag("en-ZZ"), "tag": code_of_tag("en-ZZ").map(tag_or)}));
+    rep.sample(json!({"law": "unknown language", "input": "xx-YY", "code": code_of_tag("xx-YY")}));
+    rep.sample(json!({"law": "tag round trip", "code": 3084, "tag": tag_or(3084), "back": code_of_tag(&tag_or(3084))}));
     rep
 }
